@@ -136,4 +136,17 @@ def Graph.expected (cfg : Cfg) (g : Graph) (n : Nat) (c : Call) : Outcome × Tra
   let r := (Fn.fresh (g.defns g.depth n)).call cfg c
   (r.2.1, r.2.2.1)
 
+/-- one operation on the graph -/
+def Graph.step (cfg : Cfg) (g : Graph) : GOp → Graph × Option Outcome
+  | .create ms lb => (g.create ms lb, none)
+  | .addMixins n ms => g.addMixins n ms
+  | .register n d => g.register n d
+  | .unregister n id => g.unregister n id
+  | .call n c => let r := g.call cfg n c; (r.1, some r.2.1)
+
+/-- a sequence of operations -/
+def Graph.runOps (cfg : Cfg) : Graph → List GOp → Graph
+  | g, [] => g
+  | g, op :: rest => Graph.runOps cfg (g.step cfg op).1 rest
+
 end Ovld
